@@ -133,6 +133,14 @@ func exec(shared *ucfg.Config, op Op, opts []ucfg.Option) string {
 	case opMergeDirect, opMergeInMap, opMergeInSlice:
 		private := ucfg.New()
 		var src interface{} = shared
+		if op.Kind == opMergeDirect && len(op.Name)%2 == 0 {
+			// the reader's own config already holds primitives under the shared config's names
+			pre := map[string]interface{}{}
+			for _, f := range shared.GetFields() {
+				pre[f] = "mine"
+			}
+			private, _ = ucfg.NewFrom(pre)
+		}
 		switch op.Kind {
 		case opMergeInMap:
 			src = map[string]interface{}{"k": shared}
